@@ -74,10 +74,119 @@ def expand(case):
             name = "t/m%d" % i if fl in ("names", "both") else "t/many"
             fields = [["varint", "n"], ["string", "s"]] if fl == "names" else [["varint", "n"], ["string", "s%d" % i]] + ([["string[]", "l"]] if i % 3 == 0 else [])
             specs.append(rs(name, fields, [str(i), "'v%d'" % i] + (["['e%d']" % i] if len(fields) == 3 else [])))
-        return specs + [specs[0], specs[1], specs[n // 2], specs[n - 1], specs[0]] + specs[::-1][: min(n, 300)]
+        new = [rs("t/late%d" % i, [["string", "late%d" % i]], ["'L%d'" % i]) for i in range(6)]
+        # early / middle / late types again, plain and - next to a type that was never seen before - nested, listed and grouped
+        tail = [specs[0], specs[1], specs[n // 2], specs[n - 1], specs[0],
+                rs("t/holdlate", [["record", "sub"], ["record", "fresh"]], [specs[2], new[0]]),
+                {"group": "g/late1", "members": [specs[3], new[1]]}, {"group": "g/late2", "members": [new[2], specs[4]]},
+                rs("t/holdlate2", [["record[]", "subs"]], [[specs[5], new[3], specs[n - 2]]])]
+        return specs + tail + specs[::-1][: min(n, 300)]
+    if g[0] == "hot":
+        # one long-lived type in constant use between T types that appear once (what a collector with one main record type and
+        # many incidental ones produces): H, m0, H, m1, ...; "nested" uses H only inside a holder / grouped record
+        n, form = g[1], g[2]
+        H = rs("t/hot", [["string", "h"], ["varint", "i"]], ["'hot'", "7"])
+        out = []
+        for i in range(n):
+            m = rs("t/inc%d" % i, [["varint", "n"], ["string", "s%d" % i]], [str(i), "'v%d'" % i])
+            if form == "plain":
+                out += [H, m]
+            elif form == "nested":
+                out += [rs("t/hothold", [["record", "sub"], ["varint", "k"]], [H, str(i)]), m]
+            else:
+                out += [{"group": "g/hot", "members": [H, rs("t/gmate", [["varint", "k"]], [str(i)])]}, m]
+        return out
+    if g[0] == "lrusweep":
+        # T types once each, then - newest first, every second one, starting at T-1-start - each of them again next to a type never
+        # seen before (nested / grouped). Whatever bound C < T a registry has, one of these records uses the entry that is oldest at
+        # that moment together with a new one, which is where two ends that forget in different orders part ways.
+        n, start, form = g[1], g[2], g[3]
+        specs = [rs("t/w%d" % i, [["varint", "n"], ["string", "s%d" % i]], [str(i), "'v%d'" % i]) for i in range(n)]
+        out = list(specs)
+        for k, i in enumerate(range(n - 1 - start, -1, -1)):
+            fresh = rs("t/fresh%d" % k, [["string", "f%d" % k]], ["'F%d'" % k])
+            if form == "nested":
+                out.append(rs("t/sweephold%d" % (k % 2), [["record", "old"], ["record", "fresh"]], [specs[i], fresh]))
+            else:
+                out.append({"group": "g/sweep", "members": [specs[i], fresh]})
+        return out
+    if g[0] == "stride":
+        # N equal records of one type whose frame length is odd: the frame starts take every residue modulo any block size <= N,
+        # so a reader or writer working in blocks of 4 KiB .. 64 KiB (1 MiB in thorough) meets every split of prefix and body
+        n = g[1]
+        return [_odd_frame_spec()] * n
+    if g[0] == "align":
+        # the first record is padded so that the stream up to and including its frame is exactly boundary+delta bytes long; five
+        # small records of two types follow (a reader or writer working in blocks of `boundary` meets every split of the next
+        # length prefix / frame). The padding is found by writing with the implementation under test and measuring.
+        boundary, delta = g[1], g[2]
+        return _aligned(boundary + delta)
     if g[0] == "sizes":
         return [rs("t/sized", [["varint", "i"], ["string", "s"], ["bytes", "b"]], [str(i), "S('%s', %d)" % ("abcdefghij"[i % 10], n), "S(b'\\x%02x', %d)" % (i % 256, n // 3)]) for i, n in enumerate(g[1])]
     raise ValueError(g)
+
+
+_ALIGN_CACHE = {}
+
+
+def _aligned(target):
+    import io
+
+    from flow.record import RecordStreamWriter
+
+    from . import recs
+
+    def specs_for(n):
+        first = rs("t/pad", [["varint", "i"], ["string", "pad"]], ["0", "S('p', %d)" % n])
+        rest = [rs("t/pad", [["varint", "i"], ["string", "pad"]], [str(i), "'s%d'" % i]) if i % 2 else A for i in range(1, 6)]
+        return [first] + rest
+
+    def size(n):
+        buf = io.BytesIO()
+        w = RecordStreamWriter(buf)
+        w.write(recs.build_record(specs_for(n)[0]))
+        w.flush()
+        return len(buf.getvalue())
+
+    if target not in _ALIGN_CACHE:
+        n = max(0, target - size(0))
+        for _ in range(6):
+            d = target - size(n)
+            if d == 0:
+                break
+            n = max(0, n + d)
+        _ALIGN_CACHE[target] = n if size(n) == target else None
+    n = _ALIGN_CACHE[target]
+    return specs_for(n if n is not None else 1)
+
+
+_ODD = []
+
+
+def _odd_frame_spec():
+    import io
+
+    from flow.record import RecordStreamWriter
+
+    from . import recs
+
+    if not _ODD:
+        for pad in ("", "x"):
+            spec = rs("t/stride", [["varint", "i"], ["string", "p"]], ["5", "'%s'" % pad])
+            buf = io.BytesIO()
+            w = RecordStreamWriter(buf)
+            r = recs.build_record(spec)
+            w.write(r)
+            w.flush()
+            a = len(buf.getvalue())
+            w.write(r)
+            w.flush()
+            if (len(buf.getvalue()) - a) % 2:
+                _ODD.append(spec)
+                break
+        else:
+            _ODD.append(spec)
+    return _ODD[0]
 
 
 def long_cases(tier):
@@ -93,6 +202,19 @@ def long_cases(tier):
     for fl in ("names", "fields", "both"):
         for n in ((260, 1030) if not thorough else (260, 1030, 4100, 4200)):
             yield {"kind": "s6", "t": "manytypes", "light": n > 300, "gen": ["manytypes", n, fl]}
+    for form in ("plain", "nested", "grouped"):
+        for n in ((140, 1030) if not thorough else (70, 140, 300, 1030, 4100)):
+            yield {"kind": "s6", "t": "hot", "light": n > 300, "gen": ["hot", n, form]}
+    for form in ("nested", "grouped"):
+        for n in ((300,) if not thorough else (150, 300, 1100)):
+            for start in (0, 1):
+                yield {"kind": "s6", "t": "lrusweep", "light": True, "gen": ["lrusweep", n, start, form]}
+    for b in ([4096, 8192, 65536, 131072] + ([16384, 32768, 262144, 1 << 20] if thorough else [])):
+        for delta in range(-6, 7):
+            yield {"kind": "s6", "t": "align", "light": True, "gen": ["align", b, delta]}
+    yield {"kind": "s6", "t": "stride", "light": True, "gen": ["stride", 65536 + 9]}
+    if thorough:
+        yield {"kind": "s6", "t": "stride", "light": True, "gen": ["stride", (1 << 20) + 9]}
     edges = [8192, 65536] + ([4096, 16384, 131072, 1 << 20] if thorough else [])
     for e in edges:
         # a run of records whose text sizes walk over the edge one code point at a time, and the same sizes in falling order
@@ -166,6 +288,17 @@ def cases(tier, seed):
         for seq in itertools.product(pool, repeat=k):
             yield {"kind": "s4", "t": "seq", "shape": list(seq), "records": [SHAPES[n] for n in seq]}
     yield from long_cases(tier)
+    # S7 one instant in several spellings (equal and equally hashed as Python objects, different on the wire), and the two wall
+    # clock readings of a fold: every ordered pair inside one record, in one list, and in two consecutive records of one stream
+    same = ["dt(2021,3,4,12,0,0,250,tz=UTC)", "dt(2021,3,4,14,0,0,250,tz=off(2))", "dt(2021,3,4,6,30,0,250,tz=off(5,30,neg=True))",
+            "dt(2021,3,4,13,0,0,250,tz=Z('Europe/Amsterdam'))", "dt(2021,3,4,12,0,0,250)", "dt(2021,3,4,12,0,37,250,tz=off(0,0,37))",
+            "dt(2021,10,31,2,30,0,0,tz=Z('Europe/Amsterdam'))", "dt(2021,10,31,2,30,0,0,tz=Z('Europe/Amsterdam'),fold=1)",
+            "dt(2021,10,31,0,30,0,0,tz=UTC)", "dt(2021,10,31,1,30,0,0,tz=UTC)"]
+    for a in same:
+        for b in same:
+            yield {"kind": "s7", "t": "datetime", "records": [rs("s/same", [["datetime", "a"], ["datetime", "b"], ["datetime[]", "l"]], [a, b, "[%s, %s]" % (b, a)])]}
+            yield {"kind": "s7", "t": "datetime", "records": [rs("s/ts", [["datetime", "ts"]], [a]), rs("s/ts", [["datetime", "ts"]], [b]), rs("s/ts", [["datetime", "ts"]], [a])]}
+            yield {"kind": "s7", "t": "datetime", "records": [rs("s/meta", [["string", "a"]], ["'m'"], _generated=a), rs("s/meta", [["string", "a"]], ["'m'"], _generated=b)]}
     # S5 atoms wrapped as record / record[] / grouped member
     for t in SCALAR_TYPES:
         for v in alphabet(t, seed)[: (40 if thorough else 7)]:
